@@ -252,8 +252,19 @@ func main() {
 	cases := []cas{
 		{"B", func(string) {}, t1 + "," + t2 + "," + t3, W, "", ""},
 		{"empty newest table dir", func(dir string) { must(os.MkdirAll(filepath.Join(dir, tbl(4)), 0700)) }, t1 + "," + t2 + "," + t3 + ",4:partial", W, "", ""},
-		{"newest table without metadata", func(dir string) { must(os.Truncate(filepath.Join(dir, tbl(3), "meta.pb.bin"), 0)) }, t1 + "," + t2 + ",3:" + h("d") + "=-", W, "", ""},
-		{"middle table without metadata", func(dir string) { must(os.Remove(filepath.Join(dir, tbl(2), "meta.pb.bin"))) }, t1 + ",2:" + h("a") + "=-;" + h("c") + "=-," + t3, W, "", ""},
+		{"index+data complete, EMPTY meta => discarded", func(dir string) { must(os.Truncate(filepath.Join(dir, tbl(3), "meta.pb.bin"), 0)) }, t1 + "," + t2 + ",3:partial", W, "", ""},
+		{"middle table, EMPTY meta => discarded", func(dir string) { must(os.Truncate(filepath.Join(dir, tbl(2), "meta.pb.bin"), 0)) }, t1 + ",2:partial," + t3, W, "", ""},
+		{"index+data complete, NO meta file => kept as legacy table", func(dir string) { must(os.Remove(filepath.Join(dir, tbl(2), "meta.pb.bin"))) }, t1 + ",2:" + h("a") + "=-;" + h("c") + "=-," + t3, W, "", ""},
+		{"index+data headers only, NO meta file => loads as empty table", func(dir string) {
+			must(os.Truncate(filepath.Join(dir, tbl(3), "index.rio"), 8))
+			must(os.Truncate(filepath.Join(dir, tbl(3), "data.rio"), 8))
+			must(os.Remove(filepath.Join(dir, tbl(3), "meta.pb.bin")))
+			os.Remove(filepath.Join(dir, tbl(3), "bloom.bf.gz"))
+		}, t1 + "," + t2 + ",3:", W, "", ""},
+		{"index.rio header-less, NO meta file => discarded", func(dir string) {
+			must(os.Truncate(filepath.Join(dir, tbl(3), "index.rio"), 0))
+			must(os.Remove(filepath.Join(dir, tbl(3), "meta.pb.bin")))
+		}, t1 + "," + t2 + ",3:partial", W, "", ""},
 		{"table with metadata but no index", func(dir string) { must(os.Remove(filepath.Join(dir, tbl(2), "index.rio"))) }, t1 + ",2:partialmeta," + t3, W, "", ""},
 		{"header-less newest WAL file", func(dir string) {
 			must(os.WriteFile(filepath.Join(dir, "wal", fmt.Sprintf("%06d.wal", walNum+1)), nil, 0600))
